@@ -72,7 +72,26 @@ def r1_protocol(ctx):
         r.check(not any(x in wo for x in b.return_blocks()), "remove/clear-every-path", "on every path", "a path does not clear the coin", b.where(clear[0][0]))
     pre = [(bi, e) for bi, e in q.call_exprs(b, "is_empty") if any(k in sig(e[2][0]) for k in COINKEY)]
     dec = q.call_exprs(b, "insert_coin_count")
-    r.check(len(dec) == 1, "remove/count-write", "the count is updated through insert_coin_count", "count updates: %d" % len(dec))
+    direct = [(bi, e) for bi, e in ins if "COIN_COUNT" in sig(e[2][1])]
+    if not dec and direct:
+        # the count is written straight into the tree: the zero ⇒ no-entry rule of insert_coin_count must be reproduced here
+        dbi, dex = direct[0]
+        val = dex[2][2]
+        inner = val[2][0] if q.is_call(val, "stdcode") else val
+        ztests = [e for e, c, bi in q.cmp_atoms(b) if c.startswith("Eq(0, ") or c.endswith(", 0)") and c.startswith("Eq(")]
+        zero_ok = False
+        for z in ztests:
+            f = force(b, {z: 1})
+            vals = {sig(e[2][2]) for bi, e in direct if bi in f.reach}
+            if vals == {"EMPTY_STR_AS_BYTES"}:
+                zero_ok = True
+        if zero_ok:
+            r.undecided("remove/count-write", "the count is written directly into the tree with its own zero test; the decrement protocol is only recognised through insert_coin_count", b.where(dbi))
+        else:
+            r.violation("remove/count-write", "remove_coin writes the decremented count (%s) straight into the tree under %s: a count that reaches 0 stays as an entry instead of being deleted, "
+                        "so a covenant hash with no coins keeps a count entry and the coin root depends on history" % (sig(val)[:60], sig(dex[2][1])[:60]), b.where(dbi))
+    else:
+        r.check(len(dec) == 1, "remove/count-write", "the count is updated through insert_coin_count", "remove_coin updates the count %d times (expected once, through insert_coin_count)" % len(dec))
     r.check(len(pre) >= 1, "remove/existing-read", "the existing entry is read", "remove_coin does not read the existing entry")
     if dec and pre and clear:
         db, de = dec[0]
